@@ -37,6 +37,13 @@ type c13RT struct {
 	r     *rt.R
 	dirty bool // serializer defaults were changed
 	progs map[string]lisp.Program
+	// second is another runtime of the same process (made on first use): the
+	// histories of c13_history.go load in one what was changed in the other
+	second *c13RT
+	// kept is the first value an ordinary load of the current case returned
+	// (with the tree it matched): it must still be that tree after whatever
+	// the rest of the case loads, dumps and changes
+	kept *c13Kept
 }
 
 func c13NewRT() *c13RT { return &c13RT{r: rt.New(rt.Opts{})} }
@@ -576,6 +583,12 @@ func c13CheckDoc(w *fw.W, c *c13RT, r *fw.RNG, dc c13DocCase) *c13x.Doc {
 			c13Judge(w, c, dc, doc, di, m, fn+"/"+variant, c13Outcome{t, v})
 		}
 	}
+	// state carried across loads: load, change the loaded containers in
+	// place, load again (c13_history.go)
+	if di != nil && c13HistoryWanted(dc.doc) {
+		c13DocHistory(w, c, dc, doc, di)
+	}
+	c13CheckKept(w, c, string(dc.doc))
 	return doc
 }
 
@@ -669,6 +682,9 @@ func c13Judge(w *fw.W, c *c13RT, dc c13DocCase, doc *c13x.Doc, di *c13DocInfo, m
 		}
 		w.Violation("decode-differs:"+m.String()+":"+cls, "load and the independent decoder disagree on the decoded structure: "+x.String(), detail(x.String()))
 		return
+	}
+	if c.kept == nil && (di.hasArr || di.hasObj || doc.NStr > 0) {
+		c.kept = &c13Kept{root: doc.Root, v: o.v, m: m, doc: dc.doc, name: dc.origin + " " + dc.name, form: form}
 	}
 	// a loaded value is itself a value of sorted maps, arrays, strings,
 	// numbers, booleans and nil: dump must be faithful for it too (this is the
